@@ -73,6 +73,7 @@ class Scenario:
         self.outputs = [None] * self.n
         self.jobs = [None] * self.n
         self.re_jobs = []
+        self.dups = []
         self.wait_future = None
         self.wait_outcome = None
         self.submit_errors = []
@@ -81,17 +82,27 @@ class Scenario:
         self.hung = False
 
     # ------------------------------------------------------------ set-up
-    def start(self):
+    def start(self, world=None, name="x", pid=1, program=None):
+        """Enters an experiment. With `world`, a further experiment run is
+        started in an existing world (same workspace directory)"""
         import experimaestro.scheduler.base as SB
         from experimaestro.tokens import ProcessCounterToken
         import xv.defs.sched as U
 
         self.U = U
-        root = rt.scratch_dir()
-        self.w = w = sched.reset(root)
+        self.pid = pid
+        if world is None:
+            root = rt.scratch_dir()
+            self.w = w = sched.reset(root)
+        else:
+            self.w = w = world
+            root = w.root
+            SB.experiment.CURRENT = None
+        w.current_pid = pid
         w.reverse_sets = self.rev
+        self.trace_start = len(w.trace)
         self.launcher = sched.make_launcher(root / "conn")
-        self.xp = SB.experiment(root / "ws", "x", launcher=self.launcher)
+        self.xp = SB.experiment(root / "ws", name, launcher=self.launcher)
         self.xp.__enter__()
         self.token = None
         if self.token_kind == "process":
@@ -105,10 +116,13 @@ class Scenario:
             w.codes[i] = self.codes[i]
         # main-thread program: submissions in order, then wait
         self.main_pc = 0
-        self.program = [("submit", i) for i in range(self.n)]
-        if self.resubmit is not None:
-            self.program.append(("resubmit", self.resubmit))
-        self.program.append(("wait",))
+        if program is not None:
+            self.program = list(program)
+        else:
+            self.program = [("submit", i) for i in range(self.n)]
+            if self.resubmit is not None:
+                self.program.append(("resubmit", self.resubmit))
+            self.program.append(("wait",))
         self._add_main_event()
         return self
 
@@ -140,13 +154,21 @@ class Scenario:
     def _main(self, step):
         import experimaestro.scheduler.base as SB
 
-        self.w.current_pid = 1
+        self.w.current_pid = self.pid
+        SB.experiment.CURRENT = self.xp
         if step[0] == "submit":
             i = step[1]
             cfg = self._config(i)
             self.configs[i] = cfg
             self.outputs[i] = cfg.submit()
             self.jobs[i] = cfg.__xpm__.job
+        elif step[0] == "dup":
+            # an identical configuration submitted again
+            i = step[1]
+            cfg = self._config(i)
+            object.__setattr__(cfg, "xv_key", ("dup", i))
+            out = cfg.submit()
+            self.dups.append((i, cfg, out))
         elif step[0] == "resubmit":
             i = step[1]
             if self.jobs[i].state == SB.JobState.ERROR:
@@ -264,7 +286,31 @@ class Scenario:
 
     # ------------------------------------------------------------ facts
     def launches(self, key):
-        return [t for t in self.w.trace if t[0] == "launch" and t[1] == key]
+        return [t for t in self.w.trace[self.trace_start:] if t[0] == "launch" and t[1] == key]
+
+    def abort(self, how):
+        """Ends the experiment abnormally: 'exception' = the with-block raises;
+        'kill' = the scheduler process dies (no __exit__ at all)"""
+        import experimaestro.scheduler.base as SB
+        from experimaestro.scheduler.workspace import Workspace
+
+        loop = self.w.loops.get(self.pid)
+        # the main thread does not continue its program
+        self.w.events = [e for e in self.w.events if e.label[0] != "main"]
+        if how == "exception":
+            try:
+                self.xp.__exit__(RuntimeError, RuntimeError("boom"), None)
+            except sched.WouldBlock:
+                pass
+            if loop is not None:
+                self.w.kill_scheduler(loop)
+        else:
+            if loop is not None:
+                self.w.kill_scheduler(loop)
+            if self.xp in SB.SIGNAL_HANDLER.experiments:
+                SB.SIGNAL_HANDLER.experiments.discard(self.xp)
+            SB.experiment.CURRENT = None
+            Workspace.CURRENT = None
 
     def harness_errors(self):
         """Exceptions swallowed by the scheduler that reveal a stub/harness
